@@ -275,7 +275,10 @@ static const char *ic_check_written(const ic_file *o, size_t filelen, size_t pre
 		if (b->n > 1 && b->size > block_size) { sprintf(m, "block %zu holds %zu entries and is %zu bytes > block size %zu", i, b->n, b->size, block_size); return m; }
 		if (i + 1 < o->nblocks) {
 			const ic_ent *nf = &o->blocks[i + 1].e[0];
-			if (b->size + 15 + nf->klen + nf->vlen < block_size) { sprintf(m, "block %zu (%zu bytes) closed early: next entry (%zu+%zu+15) would only bring it to %zu < %zu", i, b->size, nf->klen, nf->vlen, b->size + 15 + nf->klen + nf->vlen, block_size); return m; }
+			/* "would bring it to that size": the size the block would have had with the entry in it - a block whose entries pass UINT32_MAX stores 8-byte restart offsets */
+			size_t wb_entries = b->size - 4 - (size_t) b->nrestarts * (b->size > UINT32_MAX ? 8 : 4) + 15 + nf->klen + nf->vlen;
+			size_t wb_extra = (wb_entries > UINT32_MAX && b->size <= UINT32_MAX) ? (size_t) b->nrestarts * 4 : 0;
+			if (b->size + 15 + nf->klen + nf->vlen + wb_extra < block_size) { sprintf(m, "block %zu (%zu bytes) closed early: next entry (%zu+%zu+15) would only bring it to %zu < %zu", i, b->size, nf->klen, nf->vlen, b->size + 15 + nf->klen + nf->vlen, block_size); return m; }
 		}
 	}
 	return NULL;
